@@ -79,15 +79,12 @@ def run_unit(args):
     sys.setrecursionlimit(max(old, 60000))
     t = threading.Thread(target=lambda: out.append(_run_unit(args, box)), daemon=True)
     t.start()
-    # per-path limit in CPU seconds of the worker thread (wall time would make the verdict depend on
+    # per-path limit in CPU seconds of the worker process (wall time would make the verdict depend on
     # machine load and on the second-solver subprocesses); a non-returning call burns CPU
     limit = args[2].get("path_limit_s", 20)
-    try:
-        clk = time.pthread_getcpuclockid(t.ident)
-        cpu = lambda: time.clock_gettime(clk)  # noqa: E731
-        cpu()
-    except Exception:  # noqa: BLE001
-        cpu = time.time
+    # (process CPU time: the worker process runs this one thread besides the sleeping watchdog;
+    # reading a thread's CPU clock is unsafe once the thread has exited)
+    cpu = time.process_time
     kicks = 0
     marker, cpu0 = None, 0.0
     while t.is_alive():
@@ -307,13 +304,48 @@ def main(mod, argv=None):
     if a.jobs <= 1 or len(jobs) <= 1:
         results = [run_unit(j) for j in jobs]
     else:
-        with ctx.Pool(min(a.jobs, len(jobs))) as pool:
-            for r in pool.imap_unordered(run_unit, jobs, chunksize=1):
-                results.append(r)
+        results = _run_pool(ctx, jobs, min(a.jobs, len(jobs)))
     extra = {}
     if hasattr(mod, "post"):
         extra = mod.post(tier, results) or {}
     return report(mod, prop, tier, seed, units, results, time.time() - t0, extra)
+
+
+def _dead(job, why):
+    return {"unit": job[1]["name"], "stats": None, "violations": [], "engine_faults": [], "inconclusive": why, "validated": 0, "samples": [], "wall_s": 0.0, "nontrivial": 0, "functions": []}
+
+
+def _run_pool(ctx, jobs, n):
+    """run the units in worker processes; a worker that dies (signal, out of memory) must not hang
+    the check: its units are retried once in isolation and otherwise reported as inconclusive"""
+    from concurrent.futures import ProcessPoolExecutor, as_completed
+    from concurrent.futures.process import BrokenProcessPool
+
+    results = []
+    todo = list(jobs)
+    for attempt in (0, 1):
+        if not todo:
+            break
+        left = []
+        workers = n if attempt == 0 else max(1, min(n, 4))
+        with ProcessPoolExecutor(max_workers=workers, mp_context=ctx) as ex:
+            futs = {ex.submit(run_unit, j): j for j in todo}
+            for f in as_completed(futs):
+                try:
+                    results.append(f.result())
+                except BrokenProcessPool:
+                    left.append(futs[f])
+                except BaseException as e:  # noqa: BLE001
+                    results.append(_dead(futs[f], f"worker failed: {type(e).__name__}: {e}"))
+        todo = left
+    for j in todo:
+        # still failing: one process per unit, so that only the culprit is lost
+        try:
+            with ProcessPoolExecutor(max_workers=1, mp_context=ctx) as ex:
+                results.append(ex.submit(run_unit, j).result())
+        except BaseException as e:  # noqa: BLE001
+            results.append(_dead(j, f"worker process died while running this unit ({type(e).__name__})"))
+    return results
 
 
 def report(mod, prop, tier, seed, units, results, wall, extra):
